@@ -1200,6 +1200,14 @@ impl SimRing {
             }
             _ => {
                 let regions = regions_of(&sqe);
+                // Oracle C01: a submission must not reference memory that has
+                // already been freed (the tracking allocator keeps freed watched
+                // blocks in quarantine, so this is detectable).
+                for r in &regions {
+                    if r.block.is_none() && track::freed_block_of(r.addr).is_some() {
+                        ev.push(KEv::BadMemory { seq, what: r.what, addr: r.addr });
+                    }
+                }
                 let state_block = if sqe.user_data > 3 {
                     track::block_of((sqe.user_data & !1) as usize).map(|b| b.id)
                 } else {
